@@ -12,6 +12,12 @@ VERIF = os.path.dirname(os.path.dirname(os.path.abspath(__file__)))
 
 # (name, property, file, old, new)
 M = [
+ # only visible under the pool.task_failed fault: the engine no longer notices a task that died in its worker
+ ("c07_worker_failure_swallowed", "C07", "rpylib/montecarlo/standard/engine.py",
+  "                    simulating_one_path, tqdm(range(mc_paths)), callback=callback\n                ).get()",
+  "                    simulating_one_path, tqdm(range(mc_paths)), callback=callback\n                ).wait()"),
+ ("c05_worker_failure_swallowed", "C05", "rpylib/montecarlo/multilevel/engine.py",
+  "                    callback=callback,\n                ).get()", "                    callback=callback,\n                ).wait()"),
  ("c08_peek_not_pop", "C08", "rpylib/process/levyprocess.py",
   "stddev, self._brownian_increments.popleft()", "stddev, self._brownian_increments[0]"),
  ("c08_seed_inside_loop", "C08", "rpylib/montecarlo/standard/engine.py",
